@@ -121,6 +121,34 @@ func checkDigraph(c *eng.Ctx, prop string, caseIdx int, r *Ref, u []Ident, order
 	} else if _, err := g.TopologicalSort(); err == nil {
 		viol("graph-toposort-accepts-cycle", "deferred", "TopologicalSort succeeded on a cyclic graph")
 	}
+	// (iii) one node removed while every add is still deferred (no DetectCycles in between), then
+	// the documented cycle check: verdict and order of what is left
+	if len(order) >= 2 {
+		g3 := graph.NewDependencyGraph()
+		for _, n := range order {
+			if err := g3.AddProviderDeferred(NewProvider(u, n, r.edges[n], r.tags[n])); err != nil {
+				viol("graph-deferred-add-error", "any", err.Error())
+				return
+			}
+		}
+		victim := order[(caseIdx+len(order)/2)%len(order)]
+		g3.RemoveProvider(u[victim].Type, u[victim].Key, u[victim].Group)
+		r3 := r.Clone()
+		r3.Remove(victim)
+		cyc3 := r3.Cyclic()
+		err3 := g3.DetectCycles()
+		if (err3 != nil) != cyc3 {
+			viol("graph-cycle-verdict", "removed-while-pending:"+graphShape(r3), fmt.Sprintf("after deferred adds and RemoveProvider(%s), DetectCycles()=%v but reference cyclic=%v", u[victim].Name, err3 != nil, cyc3))
+		} else if !cyc3 {
+			sorted, err := g3.TopologicalSort()
+			if err != nil {
+				viol("graph-toposort-fails-on-dag", "removed-while-pending", fmt.Sprintf("after deferred adds and RemoveProvider(%s): %v", u[victim].Name, err))
+			} else if msg := CheckTopo(sorted, r3, u); msg != "" {
+				viol("graph-toposort-invalid", "removed-while-pending", msg)
+			}
+			stats["graph_toposorts_after_remove_while_pending"]++
+		}
+	}
 	// (ii) incremental AddProvider in the given order: every add that keeps the prefix graph
 	// acyclic must be accepted; one that closes a cycle must be rejected and leave the graph unchanged.
 	g2 := graph.NewDependencyGraph()
